@@ -21,13 +21,14 @@ func init() {
 		Title: "Interrupts and abnormal exits: prompt delivery, clean unwind, reusable runtime",
 		Rule: fmt.Sprintf("programs = every nesting (quick: depth 1, thorough: depth <= 2; throw family: depth <= 2 in both tiers) of the %d context wrappers around each body; ", len(wrappers)) +
 			"one case = (program, injection): interrupt families inject at EVERY evaluation step k of the program (non-terminating bodies: k <= 60 quick, k <= 200 / 100 at depth 1 / 2 thorough), " +
-			"hostpanic at every tick call x 4 payloads, throw/limits have one case per program / grid point. Each case runs on a fresh runtime " +
+			"hostpanic at every tick call x 4 payloads, throw/limits have one case per program / grid point; entry = 11 API entry routes x 4 channel-installation times x {pre-queued, every step k} x {panic, record}. Each case runs on a fresh runtime " +
 			"(plus a follow-up program and a second injected run on the same runtime). A case is non-trivial when the injection lands while the " +
 			"runtime is not at global level (a function/native frame, a pending label or a try/catch block is active at step k) or, for the " +
 			"throw/hostpanic/limits families, when the abnormal exit crosses at least one wrapper frame.",
 		Families: []engine.Family{
 			// cheapest first, so that a run that hits its time budget has completed the small families
 			{Name: "limits", Run: runLimits},
+			{Name: "entry", Run: runEntryFamily},
 			{Name: "throw", Run: runThrow},
 			{Name: "hostpanic", Run: runHostPanic},
 			{Name: "interrupt-record", Run: runInterruptRecord},
@@ -36,6 +37,7 @@ func init() {
 		Assumptions: []string{
 			"the verif-tagged step hook fires at each of the three interrupt polling points immediately before the poll (hooks.go, add-only)",
 			"VerifRestState reads rt.scope / rt.labels faithfully",
+			"entry family: the channel that must be polled is the one in the runtime's Interrupt field while the evaluator runs, whichever API entry point was used and whenever it was installed, replaced or cleared",
 			"global state is observed through Otto.Get / Object.Get on a fixed list of globals that the generated programs use exclusively (no var, no other names)",
 			"the wrapper model (ES5 12.14 try/catch/finally propagation, 12.10 with, 10.4.2 eval code, 15.3.2.1 Function) predicts markers only; loop counters and function objects are compared against the reference run",
 			"foreign string panics raised by host functions are catchable by script try (pinned by otto's Test_issue383); all other non-exception panic values must leave Run unchanged",
